@@ -87,6 +87,21 @@ def handle (line : String) : String :=
         let sg ← Pe.segSetStr T Defaults.std sg name (unhex hx.toList) ec (lvl == "S")
         Pe.encSegment T ec sg)
     | _, _ => "bad-args"
+  | ["RESF", ver, seg, hx] =>
+    match tablesFor ver with
+    | some T =>
+      match (do let sg ← Pe.segmentNew T seg; Pe.segFindChild T sg (String.ofList (unhex hx.toList))) with
+      | .ok (n, _) => "ok " ++ n
+      | .error e => "exc " ++ e.show
+    | none => "bad-args"
+  | ["RESC", ver, fld, hx] =>
+    match tablesFor ver with
+    | some T =>
+      match (do let f ← Pe.fieldNew T (some fld) none false none; Pe.fieldTraverse T f (String.ofList (unhex hx.toList))) with
+      | .ok (n, none) => "ok " ++ n
+      | .ok (n, some k) => "ok " ++ n ++ "/" ++ k
+      | .error e => "exc " ++ e.show
+    | none => "bad-args"
   | ["SEG", ver, lvl, dlvl, ec, hx] =>
     match tablesFor ver, parseEC ec with
     | some T, some ec =>
